@@ -135,6 +135,7 @@ def emit(vf, exp, path, fr, ind):
          'r is Ok ==> exists|p: Seq<%s>| #![trigger rows_enc(p)] p.to_multiset() == value@.to_multiset() && sorted_rows(p) && rows_enc(p) is Some\n'
          '    && final(asm).bits() == old(asm).bits() + rows_enc(p)->Some_0' % T),
     ]
+    enc_ensures = list(sp.ensures)
     A = sp.inserts.append
     A(('before', 'let mut value = value.clone();', 0, 'let ghost verif_v0 = value@; let ghost verif_b0 = asm.bits();'))
     A(('after', 'slice.sort_unstable_by', 0,
@@ -267,5 +268,6 @@ def emit(vf, exp, path, fr, ind):
             A(('before', 'Ok(value)', 0, post))
     vgen.emit_fn(vf, exp, path + ['fn:decode'], sp, label='%s::decode' % '::'.join(path[1:]), indent=ind, keep_pub=True)
     # clauses of decode_checked that the external stub `decode` (called by the data segment) may carry: proved above
+    sh['stub_encode_ensures'] = [t for (oid, _, t) in enc_ensures if oid.split('.')[-1] == 'rows_sorted_column_major']
     sh['stub_decode_ensures'] = [t for (oid, _, t) in sp.ensures if oid.split('.')[-1] in ('error_kinds', 'rows_follow_mask_order', 'unknown_signal_rejected')]
     return sh
